@@ -24,7 +24,7 @@ META = {
                     "cells:one_valid_row", "cells:two_valid_rows", "cells:many_rows", "cells:missing_by_value",
                     "class:weighted_stddev", "class:weighted_quantile", "class:weighted_covariance", "class:datetime",
                     "class:cols", "class:ndims=0", "class:propagate", "class:ignore", "wq:rescale_checked",
-                    "class:large_offset_small_spread"]
+                    "class:large_offset_small_spread", "metamorphic:zero_dim_vs_one_cell", "class:zero_weights_in_metamorphic_check"]
                 for t in ("quick", "thorough")},
     "assumptions": [
         "correlation entries with a zero-variance column or < 2 rows, and covariance entries of cells with < 2 (complete) "
@@ -289,6 +289,36 @@ def judge(ctx, case):
                         if abs(float(r[idx]) - ev) > (tol if agg == "covariance" else 1e-9 + 1e-11 * mag / spread):
                             ctx.violation("value:" + feat, "matrix entry %r (%d rows): library %r, textbook %r" % (idx, nuse, r[idx], ev), case)
                             return
+    # "the statistic over the rows that fall in the cell" cannot depend on how the cell is addressed:
+    # the one cell of a dimensionless cube and the one cell of a cube whose single dimension has one
+    # category hold the same rows (here also with zero weights, for which the textbook formula is moot)
+    if not dense and agg in ("stddev", "quantile", "covariance") and n >= 1:
+        c3 = dict(case)
+        if case["weights"]["kind"] in ("array", "tuple") and agg == "stddev":
+            w3 = dict(case["weights"])
+            wv3 = w3["values"].copy()
+            zr = numpy.random.default_rng(n).random(n) < 0.4
+            wv3[zr & numpy.isfinite(wv3)] = 0.0
+            w3["values"] = wv3
+            c3["weights"] = w3
+            ctx.count("class:zero_weights_in_metamorphic_check")
+        one = catii.xcube([numpy.zeros(n, dtype="int64")], interacting_shape=(1,))
+        a0 = numpy.asarray(aggr.call_x(catii.xcube([]), agg, c3, rma)).astype(float).ravel()
+        a1 = numpy.asarray(aggr.call_x(one, agg, c3, rma)).astype(float).ravel()
+        ctx.count("metamorphic:zero_dim_vs_one_cell")
+        if agg == "covariance":
+            # entries of a one-row cell are undefined in both (see assumptions)
+            pass
+        if a0.shape != a1.shape or not numpy.array_equal(numpy.isnan(a0), numpy.isnan(a1)) or \
+                not numpy.all(numpy.abs(a0[~numpy.isnan(a0)] - a1[~numpy.isnan(a1)]) <= tol):
+            complete = int((xv.all(axis=1) if xv.ndim == 2 else xv)[(wv if wv is not None else numpy.ones(n, dtype=bool))].sum()) if ig else n
+            # covariance of fewer than two (complete) rows is undefined; the two paths of the library
+            # legitimately differ there (see assumptions)
+            if not (agg == "covariance" and complete < 2):
+                ctx.violation("zero-dim-vs-one-cell:%s" % feat,
+                              "the single cell of xcube([]) gives %r, the single cell of a one-category cube over the same rows gives %r"
+                              % (a0[:4].tolist(), a1[:4].tolist()), c3)
+                return
     # weighted quantile: invariance under rescaling all weights by a power of two
     if agg == "quantile" and case["weights"]["kind"] in ("array", "tuple"):
         c2 = dict(case)
